@@ -21,8 +21,8 @@ class TC:
             self.link = b.link_foamlib()
             self.lib = '-lfoamlib'
 
-    def aldor(self, args, cwd, timeout=120, env=None, stdin=None):
-        return run(self.b.base() + self.flags + list(args), cwd=cwd, timeout=timeout, env=env, stdin=stdin, merge=True)
+    def aldor(self, args, cwd, timeout=120, env=None, stdin=None, mem_mb=None):
+        return run(self.b.base() + self.flags + list(args), cwd=cwd, timeout=timeout, env=env, stdin=stdin, merge=True, mem_mb=mem_mb)
 
     # -- interpreter -------------------------------------------------------------------------
     def interp(self, src, q=('-Q1',), cwd=None, timeout=120, env=None, extra=()):
